@@ -4,6 +4,7 @@ import (
 	"bytes"
 	"encoding/json"
 	"fmt"
+	"strings"
 	"testing"
 	"unicode/utf8"
 
@@ -18,13 +19,15 @@ const fc1PanicText = "Restriction kind is not supported"
 
 // c41Known are the listed known findings of C41 with their narrow predicates.
 type c41Known struct {
-	fc1, fc2, fc3, fc4, fc5 bool
+	fc1, fc2, fc3, fc4, fc5, fc6, fc7 bool
 }
 
 // c41Excluded returns the finding id whose predicate the generated value
 // matches (the whole case is skipped), or "".
-func (k c41Known) excluded(in *vgen.Info) string {
+func (k c41Known) excluded(v cadence.Value, in *vgen.Info) string {
 	switch {
+	case k.fc6 && fc6Matches(v):
+		return "FC6"
 	case k.fc4 && in.HasAttachmentValue:
 		return "FC4"
 	case k.fc3 && in.UnboundedTypeParam:
@@ -71,6 +74,19 @@ func reportC41Known(rec *evid.Rec) c41Known {
 			still = vgen.Diff(cadence.NewTypeValue(ty), d.value, vgen.Eq{}) != ""
 		}
 		rec.ReportKnown("FC5", still)
+	}
+	if rec.Known("FC6") {
+		k.fc6 = true
+		inner := cadence.NewStructType(nil, "PublicKey", nil, nil)
+		outer := cadence.NewStructType(nil, "AccountKey", []cadence.Field{{Identifier: "k", Type: inner}},
+			[][]cadence.Parameter{{{Identifier: "k", Type: inner}}})
+		e := jsonEncode(cadence.NewTypeValue(outer))
+		rec.ReportKnown("FC6", e.err == nil && jsonDecode(e.bytes).err != nil)
+	}
+	if rec.Known("FC7") {
+		k.fc7 = true
+		d := jsonDecode([]byte(`{"type":"Address","value":"0x0000000000000000000001"}`))
+		rec.ReportKnown("FC7", d.panic != nil || wrapsGoRuntimeError(d.err))
 	}
 	return k
 }
@@ -139,6 +155,10 @@ func c41Mutant(rec *evid.Rec, known c41Known, mut []byte, label string) string {
 	case d.err != nil:
 		rec.Class("mutant/rejected")
 		if wrapsGoRuntimeError(d.err) {
+			if known.fc7 && strings.Contains(d.err.Error(), "slice bounds out of range [-") {
+				rec.Excluded("FC7")
+				return ""
+			}
 			return fmt.Sprintf("Decode crashed internally on malformed input (%s) and reported the recovered Go runtime error as a decoding error: %v\ninput: %s", label, d.err, clip(mut))
 		}
 	case d.value == nil:
@@ -175,7 +195,7 @@ func TestC41(t *testing.T) {
 		g := vgen.New(vgen.FromRapid(rt), vgen.Config{MaxDepth: 4})
 		v, _ := g.AnyValue()
 		in := vgen.Inspect(v)
-		if id := known.excluded(in); id != "" {
+		if id := known.excluded(v, in); id != "" {
 			rec.Excluded(id)
 			return
 		}
